@@ -172,9 +172,10 @@ def run_case(hist, inst):
         fps = set()
         trans = 0
         bad = None
+        iter_raised = []
         obs0 = observe(x, das[0])
         if obs0 != expected_obs(()):
-            return ("initial", -1, None, obs0, expected_obs(())), 0, fps
+            return ("initial", -1, None, obs0, expected_obs(())), 0, fps, 0
         for i, op in enumerate(hist):
             trans += 1
             try:
@@ -201,6 +202,11 @@ def run_case(hist, inst):
                             next(its[k])
                         except StopIteration:
                             pass
+                        except Exception:
+                            # an exception out of the evaluation itself (two interleaved iterators over queries that
+                            # share a lazily consumed domain can raise `dictionary changed size during iteration`) is
+                            # not C08's subject; the mode after the step still is
+                            iter_raised.append(op)
                     elif op[0] == "L":
                         its[k].close()
                     elif op[0] == "D":
@@ -209,8 +215,11 @@ def run_case(hist, inst):
                         if wr() is not None:      # not freed by reference counting: let the collector finalise it
                             gc.collect()
                     elif op[0] == "E":
-                        for _ in its[k]:
-                            pass
+                        try:
+                            for _ in its[k]:
+                                pass
+                        except Exception:
+                            iter_raised.append(op)
             except Exception as e:
                 bad = ("step-raised", i, op, exc_obs(e), "no exception")
                 break
@@ -233,13 +242,13 @@ def run_case(hist, inst):
                 cms.pop().__exit__(None, None, None)
             except Exception:
                 pass
-        return bad, trans, fps
+        return bad, trans, fps, len(iter_raised)
 
-    bad, trans, fps = run_isolated(body)
+    bad, trans, fps, nraised = run_isolated(body)
     has_block = any(op in ENTER for op in hist)
     has_iter = any(op[0] in "CNLDE" and op not in ENTER and op not in ("X", "XE") for op in hist)
     res = {"ok": bad is None, "nontrivial": has_block and has_iter, "transitions": trans, "fps": fps,
-           "tags": [f"len={len(hist)}"] + [f"op={op[0] if op not in ENTER and op not in ('X', 'XE') else op}" for op in set(hist)],
+           "tags": [f"len={len(hist)}"] + (["evaluation_raised_inside_iterator_step"] if nraised else []) + [f"op={op[0] if op not in ENTER and op not in ('X', 'XE') else op}" for op in set(hist)],
            "outcome": None}
     if bad is not None:
         kind, i, op, got, exp = bad
